@@ -19,12 +19,16 @@ LAYOUTS = {
     "nested-group-2": [("G0", "S0"), ("G0/G0", "S0")],
     "mixed-3": [("G0", "S0"), ("G0", "S0"), ("G1", "S0")],
     "three-segments-3": [("G0", "S0"), ("G0", "S1"), ("G0/G0", "S0")],
+    "same-segment-2-same-discriminator": [("G0", "S0"), ("G0", "S0")],  # discriminators need not be unique (Optional[str])
 }
-INPUT_SETS = [["good", "bad"], ["bad", "good"], [None, "good"], ["good", None], ["", "good"], ["bad", "worse"]]
+INPUT_SETS = [["good", "bad"], ["bad", "good"], [None, "good"], ["good", None], ["", "good"], ["bad", "worse"],
+              # the same instant in two notations / two instants (for the shipped constraints 932.. of expression set 3)
+              ["2022-01-01T12:00:00+00:00", "2022-01-01T14:00:00+02:00"], ["2021-12-31T23:00:00+00:00", "2022-01-01T00:00:00+01:00"]]
 INPUT_SETS3 = [["good", "bad", None], ["bad", None, "good"], [None, "good", "bad"]]
 EXPR_SETS = [["Muss [1][950]", "Muss [1][950]", "Muss [1][950]"],  # identical expressions (shared FC key and FC expression)
              ["Muss [4P][950]", "Muss [1][950]", "Soll [1][950]"],  # the first one sits behind a package (a yield BEFORE the set)
-             ["Muss [1][950]", "Muss [4P][950] U [951]", "Kann [1][950]"]]
+             ["Muss [1][950]", "Muss [4P][950] U [951]", "Kann [1][950]"],
+             ["Muss [1][932]", "Muss [1][UB1]", "Muss [1][933]"]]  # shipped date-time constraints (same code for every element)
 
 
 def describe(tier):
@@ -52,7 +56,10 @@ def plan(tier, seed):
     for lname, paths in LAYOUTS.items():
         n = len(paths)
         for ei in range(len(EXPR_SETS)):
-            for ii, _ in enumerate(INPUT_SETS if n == 2 else INPUT_SETS3):
+            for ii, inp in enumerate(INPUT_SETS if n == 2 else INPUT_SETS3):
+                is_date = bool(inp[0]) and inp[0][:2] == "20"
+                if (ei == 3) != is_date:
+                    continue
                 for ambient in (None, "good"):
                     if ambient and ii % 2:
                         continue
@@ -96,7 +103,8 @@ def _model(item):
         if seg is None:
             seg = {"kind": "segment", "id": gid + "." + sid, "expr": "Muss", "elements": []}
             parent["segments"].append(seg)
-        el = {"kind": "free", "id": f"{seg['id']}.D{len(seg['elements'])}", "expr": exprs[k], "input": inputs[k]}
+        eid = f"{seg['id']}.D" if item["layout"].endswith("same-discriminator") else f"{seg['id']}.D{len(seg['elements'])}"
+        el = {"kind": "free", "id": eid, "expr": exprs[k], "input": inputs[k]}
         seg["elements"].append(el)
         elems.append(el)
     return top, elems
@@ -140,15 +148,24 @@ def _oracle(item, observed_json):
     obs = json.loads(observed_json)
     if obs and obs[0] == "exception":
         return [("validation-raised", "a result list", obs[1])]
-    _top, elems = _model(item)
-    by_id = {o["id"]: o for o in obs}
+    top, elems = _model(item)
+    from mc.ref import validation as R7
+
+    order = [n for n in R7.nodes(top)]  # document order = order of the result list (C13)
+    if [n["id"] for n in order] != [o["id"] for o in obs]:
+        return [("element-missing", [n["id"] for n in order], [o["id"] for o in obs])]
+    builtin = item["exprs"] == 3
     for k, el in enumerate(elems):
-        o = by_id.get(el["id"])
-        if o is None:
-            out.append(("element-missing", el["id"], sorted(by_id)))
-            continue
+        o = obs[[i for i, n in enumerate(order) if n is el][0]]
+        if builtin:
+            # the shipped constraints quote their own input in the message: a foreign notation must not show up
+            others = [e["input"] for e in elems if e is not el and e["input"] and e["input"] != el["input"]]
+            leaked = [x for x in others if o["format_msg"] and x in o["format_msg"]]
+            if leaked:
+                out.append(("foreign-input-seen", {"id": el["id"], "own_input": el["input"]}, {"id": el["id"], "format_msg": o["format_msg"]}))
+                continue
         exp_ful, exp_msg = _fc_answer(el["input"])
-        if o["format"] is not exp_ful or o["format_msg"] != exp_msg:
+        if not builtin and (o["format"] is not exp_ful or o["format_msg"] != exp_msg):
             out.append(("foreign-input-seen", {"id": el["id"], "own_input": el["input"], "format": exp_ful, "format_msg": exp_msg},
                         {"id": el["id"], "format": o["format"], "format_msg": o["format_msg"]}))
             continue
